@@ -136,10 +136,10 @@ func (in *Instance) ProjectState() (M, []string) {
 			}
 			s["maxBody"] = int(vs[1])
 		case "threshold":
-			if !ok || vs[1] > 1<<30 {
+			if !ok || vs[1] > 0xFFFFFFFF {
 				bad(k, "value")
 			}
-			s["threshold"] = int(vs[1])
+			s["threshold"] = ThresholdSym(uint32(vs[1]))
 		case "nextNonce":
 			if !ok {
 				bad(k, "value")
